@@ -53,3 +53,14 @@ void h_tls_get_client_hello(void)
 	if (ret == 1) { CANARY("parsed"); if (*sid) CANARY("session-id"); if (*exts) CANARY("extensions"); }
 	CANARY("returned");
 }
+
+//@job name=tls_get_certificate_request props=C06 enforce=tls_record_get_handshake_certificate_request replace=tls_record_get_handshake,tls_uint8array_from_bytes,tls_uint16array_from_bytes,tls_length_is_zero,tls_cert_type_name unwindset=tls_record_get_handshake_certificate_request.*:4 partial=1 bounded=at-most-3-certificate-types-and-3-CA-names(loops-unwound,no-unwinding-assertion) trusted=tls_cert_type_name timeout=900
+void h_tls_get_certificate_request(void)
+{
+	INPUT(gt_in, H); ASSUME(H.len >= 5 && H.len <= 5 + 65535);
+	MKBUF(record, H.first, H.len); ASSUME(((((size_t)record[3]) << 8) | record[4]) + 5 == H.len);
+	const uint8_t **ct = malloc(sizeof(*ct)), **ca = malloc(sizeof(*ca)); size_t *ctl = malloc(sizeof(size_t)), *cal = malloc(sizeof(size_t)); ASSUME(ct && ca && ctl && cal);
+	int ret = tls_record_get_handshake_certificate_request((H.mode & 1) ? NULL : record, ct, ctl, ca, cal);
+	if (ret == 1) { CANARY("parsed"); if (*ca) CANARY("ca-names"); }
+	CANARY("returned");
+}
